@@ -53,8 +53,9 @@ def tail(out):
 
 
 def model_check(work, rep, tier):
-    # mq/hq: thread 3 only uses; hn (3 cells, all threads set and use, ~10^7 states, 4 min on 4 idle cores) only on request
-    models = ["mq"] if tier == "quick" else ["mv", "nn", "hc", "hq"] + (["hn"] if os.environ.get("VERIF_DEEP") else [])
+    # mq/hq: thread 3 only uses; hc (same shape as mv) and hn (3 cells, all threads set and use, ~10^7 states,
+    # 4 min on 4 idle cores) only on request
+    models = ["mq"] if tier == "quick" else ["mv", "nn", "hq"] + (["hc", "hn"] if os.environ.get("VERIF_DEEP") else [])
     scns = set()
     for m in models:
         r = vf.tlc_mc(work, "MC_Settings.tla", f"MC_Settings_{m}.cfg", workers=4, timeout=1500, meta=f"md-{m}")
@@ -269,7 +270,7 @@ def run(prop, tier, seed, replay=None):
     else:
         scns = model_check(work, rep, tier)
         small = small_jobs(work, tier)          # runs while the harness executes the trials
-        n_tlc, n_rand = (60, 140) if tier == "quick" else (600, 2400)
+        n_tlc, n_rand = (60, 140) if tier == "quick" else (500, 2000)
         picked = rng.sample(scns, min(n_tlc, len(scns)))
         progs = []
         for s in picked:
